@@ -79,12 +79,32 @@ SEND_ALL_LOOP = dict(
     invariants="total_send <= len && g_xfer_count == total_send && g_xfer_ok && g_xfer_len == len",
     decreases="len - total_send")
 
+SYNC_LOOP = dict(
+    function="rtr_sync", fingerprint=r"while \(type == SERIAL_NOTIFY\)", macro_headers=[],
+    symbols=["rtr_socket", "pdu", "type", "oldcancelstate"], globals=["g_env"],
+    assigns="type, oldcancelstate, __CPROVER_object_whole(pdu), rtr_socket->version, rtr_socket->has_received_pdus, rtr_socket->state, __CPROVER_object_whole(&g_env)",
+    invariants="rtr_socket->version <= __CPROVER_loop_entry(rtr_socket->version) && rtr_socket->version <= 1 && "
+               "rtr_socket->state == __CPROVER_loop_entry(rtr_socket->state) && "
+               "(rtr_socket->version < __CPROVER_loop_entry(rtr_socket->version) ? !__CPROVER_loop_entry(rtr_socket->has_received_pdus) : 1) && "
+               "(__CPROVER_loop_entry(rtr_socket->has_received_pdus) ? rtr_socket->has_received_pdus : 1)")
+
 UNITS = [
     # ------------------------------------------------------------------ receive path (C04, C13, C14)
     U(id="receive_pdu", props=["C04", "C13", "C14"], file="units/receive.c", entry="h_receive_pdu",
       enforce=["rtr_receive_pdu"], kind="complete", native=None, timeout=1800, link=PKT_LINK, replace=["verif_fmt"],
       cbmc_flags=["--sat-solver", "cadical"],
       stubs=["tr_recv_all", "tr_send_all", "lrtr_dbg", "pthread_setcancelstate"]),
+    # ------------------------------------------------------------------ synchronisation layer (C05, C07, C13)
+    U(id="cache_response", props=["C05", "C07", "C14"], file="units/sync.c", entry="h_cache_response", defines=["H_ENTRY=h_cache_response"],
+      enforce=["rtr_handle_cache_response_pdu"], replace=["rtr_send_error_pdu_from_host"], kind="complete", native=None,
+      stubs=["lrtr_dbg", "lrtr_get_monotonic_time"]),
+    U(id="error_pdu", props=["C13", "C04"], file="units/sync.c", entry="h_error_pdu", defines=["H_ENTRY=h_error_pdu"],
+      enforce=["rtr_handle_error_pdu"], kind="complete", native=None, stubs=["lrtr_dbg", "lrtr_get_monotonic_time"]),
+    U(id="sync", props=["C05", "C13", "C07"], file="units/sync.c", entry="h_sync", defines=["H_ENTRY=h_sync"],
+      enforce=["rtr_sync"], replace=["rtr_receive_pdu", "rtr_handle_cache_response_pdu/rtr_handle_cache_response_pdu__client", "rtr_sync_receive_and_store_pdus",
+                                     "rtr_send_error_pdu_from_host", "rtr_handle_error_pdu/rtr_handle_error_pdu__client"],
+      loops=[SYNC_LOOP], kind="unbounded", need_classes=["postcondition", "loop_invariant_step", "precondition"], native=None,
+      stubs=["lrtr_dbg", "lrtr_get_monotonic_time", "pthread_setcancelstate"]),
     # ------------------------------------------------------------------ transport (C04, C14)
     U(id="tr_recv_all", props=["C04"], file="units/transport.c", entry="h_tr_recv_all", defines=["H_ENTRY=h_tr_recv_all"],
       enforce=["tr_recv_all"], loops=[RECV_ALL_LOOP], kind="unbounded",
